@@ -134,7 +134,13 @@ impl Ctx {
                 let c: LintGroupConfig = serde_json::from_value(v["entries"].clone()).unwrap_or_default();
                 vec![mk_record(RecordKind::LintConfigUpdate(c), when, uuid)]
             }
-            "doc" => self.doc_records(v["text"].as_str().unwrap_or(""), when, uuid),
+            "doc" => {
+                let mut recs = self.doc_records(v["text"].as_str().unwrap_or(""), when, uuid);
+                if let Some(n) = v["take"].as_u64() {
+                    recs.truncate(n as usize);
+                }
+                recs
+            }
             _ => vec![],
         }
     }
@@ -393,12 +399,14 @@ impl LogChecker {
     /// candidate only if `is_finite()`, b5c1992) and lex_hex_number (a u64 as f64), and JSON cannot denote a
     /// non-finite number, so no imported record has one either.  A log holding a SYNTHETIC record with a
     /// non-finite Number is therefore outside the property: correspondence (R, M) only, no oracle.
-    fn check_log(&mut self, rep: &mut Report, sessions: &[Vec<Record>], from_text: &[Vec<bool>], how: &[u8], origin: &str, dir: &str) {
+    fn check_log(&mut self, rep: &mut Report, sessions: &[Vec<Record>], from_text: &[Vec<bool>], sessions_json: Option<Value>, how: &[u8], origin: &str, dir: &str) {
         rep.eval();
         let all: Vec<Record> = sessions.iter().flatten().cloned().collect();
         let all_from_text: Vec<bool> = sessions.iter().enumerate().flat_map(|(si, s)| (0..s.len()).map(move |i| (si, i))).map(|(si, i)| from_text.get(si).and_then(|f| f.get(i)).copied().unwrap_or(false)).collect();
+        // the replayable input: records made from text are described by the text (so that a replay goes through
+        // the real lexer and linters again), assembled ones token by token
         let inp = json!({"kind": "log", "origin": origin, "how": how,
-            "sessions": sessions.iter().map(|s| s.iter().map(record_to_json).collect::<Vec<_>>()).collect::<Vec<_>>()});
+            "sessions": sessions_json.unwrap_or_else(|| json!(sessions.iter().map(|s| s.iter().map(record_to_json).collect::<Vec<_>>()).collect::<Vec<_>>()))});
         // --- the lexer contract: every Number of a record made from text is finite (monitored; F16 if not)
         for (ri, r) in all.iter().enumerate() {
             if all_from_text[ri] {
@@ -1116,6 +1124,156 @@ fn check_wasm(rep: &mut Report, texts: &[Vec<String>], origin: &str) {
     rep.count_n("wasm:suggestions_applied", kinds.len() as u64);
 }
 
+
+// ------------------------------------------------------------------------------------------------
+// Numbers: the two contracts the record round trip now rests on
+//   (lexer)  a Number made from text is finite      — lex_number (is_finite filter, b5c1992), lex_hex_number (u64)
+//   (float)  serde_json re-reads every finite f64 it prints, bit for bit — float_roundtrip (abf6ba7)
+// ------------------------------------------------------------------------------------------------
+fn float_rereads_exactly(x: f64) -> bool {
+    match serde_json::to_string(&x).ok().and_then(|t| serde_json::from_str::<f64>(&t).ok()) {
+        Some(y) => y.to_bits() == x.to_bits(),
+        None => false,
+    }
+}
+
+/// texts holding number literals at the edges of f64, mostly with an upper-case ordinal suffix (which makes
+/// a lint touch the number, so that the Number lands in a record's context)
+fn gen_number_text(r: &mut Rng) -> String {
+    const EDGE: &[&str] = &[
+        "1e999", "1e309", "1e308", "2e308", "1.8e308", "1.7976931348623157e308", "1.7976931348623158e308", "1.7976931348623159e308",
+        "17976931348623157e292", "17976931348623159e292", "179769313486231580793728971405303415079934132710037826936173778980444968292764750946649017977587207096330286416692887910946555547851940402630657488671505820681908902000708383676273854845817711531764475730270069855571366959622842914819860834936475292719074168444365510704342711559699508093042880177904174497792",
+        "179769313486231570814527423731704356798070567525844996598917476803157260780028538760589558632766878171540458953514382464234321326889464182768467546703537516986049910576551282076245490090389328944075868508455133942304583236903222948165808559332123348274797826204144723168738177180919299881250404026184124858368",
+        "1e-400", "4.9e-324", "2.2250738585072014e-308", "1.5632780128606819e192", "9007199254740993", "0.30000000000000004", "5e-324", "1e23", "8.41e21",
+        "1E999", "1e+999", "1.e999", "9e999e9", "1e99999999999", "0xFFFFFFFFFFFFFFFF", "0xFFFFFFFFFFFFF800", "0x1e999", "1e999.5", "123456789012345678901234567890",
+    ];
+    let num = match r.below(10) {
+        0..=3 => r.s(EDGE).to_string(),
+        4..=5 => {
+            // mantissa [. fraction] e exponent, exponents up to 400
+            let mut t = format!("{}", 1 + r.below(999));
+            if r.chance(1, 2) {
+                t.push('.');
+                for _ in 0..r.below(18) {
+                    t.push((b'0' + r.below(10) as u8) as char);
+                }
+            }
+            t.push(*r.pick(&['e', 'E']));
+            if r.chance(1, 4) {
+                t.push(*r.pick(&['+', '-']));
+            }
+            t.push_str(&format!("{}", match r.below(4) { 0 => r.below(30), 1 => 290 + r.below(30), 2 => r.below(400), _ => 300 + r.below(700) }));
+            t
+        }
+        6 => {
+            // a long run of digits (up to beyond 2^1024)
+            let n = match r.below(3) { 0 => r.range(15, 25), 1 => r.range(300, 312), _ => r.range(305, 330) };
+            let mut t = String::new();
+            t.push((b'1' + r.below(9) as u8) as char);
+            for _ in 1..n {
+                t.push((b'0' + r.below(10) as u8) as char);
+            }
+            t
+        }
+        7 => {
+            // the shortest decimal form of a random finite f64: every finite f64 is reachable from text
+            let mut x = f64::from_bits(r.next() & 0x7FFF_FFFF_FFFF_FFFF);
+            if !x.is_finite() {
+                x = f64::MAX;
+            }
+            format!("{:e}", x)
+        }
+        8 => format!("0x{:X}", r.next() >> r.below(64)),
+        _ => format!("{}", r.below(3000)),
+    };
+    let suffix = match r.below(10) {
+        0..=5 => *r.pick(&["TH", "ST", "ND", "RD", "Th", "tH"]),
+        6..=7 => *r.pick(&["th", "st", "nd", "rd"]),
+        _ => "",
+    };
+    match r.below(4) {
+        0 => format!("{num}{suffix}"),
+        1 => format!("This is the {num}{suffix} time I tell you."),
+        2 => format!("{num}{suffix} and {}TH", r.s(EDGE)),
+        _ => format!("It happened on the {num}{suffix}, {}.", gen::clean_sentence(r)),
+    }
+}
+
+/// a text with number literals: (lexer) on every Number token of the Document, (float) on its value, then the
+/// records of its lints through a log
+fn check_number_text(rep: &mut Report, lc: &mut LogChecker, cx: &mut Ctx, text: &str, origin: &str, dir: &str) {
+    let inp = json!({"kind": "numtext", "text": text, "origin": origin});
+    let dict = cx.dict.clone();
+    let nums: Vec<f64> = guarded(|| {
+        let doc = Document::new_plain_english(text, &dict);
+        doc.get_tokens().iter().filter_map(|t| if let TokenKind::Number(n) = &t.kind { Some(n.value.0) } else { None }).collect::<Vec<f64>>()
+    })
+    .unwrap_or_default();
+    for x in &nums {
+        if x.is_finite() {
+            rep.monitor("lexer: a Number token lexed from text is finite", 1);
+            if float_rereads_exactly(*x) {
+                rep.monitor("float: serde_json re-reads the finite f64 it printed bit for bit", 1);
+            } else {
+                rep.monitor("float_violated: a finite f64 is not re-read exactly", 1);
+            }
+        } else {
+            rep.monitor("lexer_violated: a Number token lexed from text is not finite", 1);
+            rep.fail("nonfinite_from_text", format!("the lexer made a Number whose value is {x} from this text: JSON (the statistics log, the code action of harper-ls) cannot carry it"), inp.clone());
+        }
+    }
+    rep.count(if nums.is_empty() { "numtext:no_number" } else if nums.iter().any(|x| *x > 1e300) { "numtext:number_above_1e300" } else { "numtext:number" });
+    let d = json!({"t": "doc", "text": text, "when": 1_700_000_000, "uuid": uuid_string(0x1900), "take": 12});
+    let recs = cx.records_from_json(&d);
+    if recs.iter().any(|r| !numbers_of(r).is_empty()) {
+        rep.count("numtext:lint_context_holds_a_number");
+    }
+    let cfg = mk_record(RecordKind::LintConfigUpdate(LintGroupConfig::default()), 7, 3);
+    let ss = vec![recs, vec![cfg]];
+    let sj = json!([[d], [{"t": "cfg", "entries": {}, "when": 7, "uuid": uuid_string(3)}]]);
+    lc.check_log(rep, &ss, &flags(&ss, true), Some(sj), &[0, 0], origin, dir);
+}
+
+/// (float) on one value; a violation is turned into a concrete failing log (a lint record whose context holds
+/// a Number with that value — every finite f64 is what lex_number makes of its shortest decimal form)
+fn check_float(rep: &mut Report, lc: &mut LogChecker, x: f64, shown: &mut usize, dir: &str) {
+    if !x.is_finite() {
+        return;
+    }
+    if float_rereads_exactly(x) {
+        rep.monitor("float: serde_json re-reads the finite f64 it printed bit for bit", 1);
+        return;
+    }
+    rep.monitor("float_violated: a finite f64 is not re-read exactly", 1);
+    if *shown < 3 {
+        *shown += 1;
+        let tok = FatStringToken { content: format!("{:e}", x), kind: TokenKind::Number(Number { value: x.into(), suffix: None, radix: 10, precision: 0 }) };
+        let ss = vec![vec![mk_record(RecordKind::Lint { kind: LintKind::Miscellaneous, context: vec![tok] }, 6, 2)]];
+        lc.check_log(rep, &ss, &flags(&ss, false), None, &[0], "float_contract", dir);
+    }
+}
+
+/// import: no JSON text denotes a non-finite Number, so a record read from a log / an editor never holds one
+fn check_json_nonfinite(rep: &mut Report) {
+    let tok = FatStringToken { content: "7".into(), kind: TokenKind::Number(Number { value: 1.5.into(), suffix: None, radix: 10, precision: 0 }) };
+    let r = mk_record(RecordKind::Lint { kind: LintKind::Miscellaneous, context: vec![tok] }, 6, 2);
+    let line = serde_json::to_string(&r).unwrap_or_default();
+    for lit in ["1e999", "-1e999", "1e309", "1.7976931348623159e308", "NaN", "Infinity", "-Infinity", "inf", "null", "\"inf\"", "1e99999999999999999999"] {
+        let l = line.replace("\"value\":1.5", &format!("\"value\":{lit}"));
+        if l == line {
+            rep.fail("json_nonfinite", "the probe line has no \"value\":1.5 member any more (harness out of date)".into(), json!({"kind": "none"}));
+            return;
+        }
+        match serde_json::from_str::<Record>(&l) {
+            Ok(rec) if has_nonfinite(&rec) => {
+                rep.monitor("import_violated: a JSON line was read as a record with a non-finite Number", 1);
+                rep.fail("json_nonfinite", format!("serde_json reads the line with \"value\":{lit} as a record holding a non-finite Number"), json!({"kind": "none", "line": l}));
+            }
+            _ => rep.monitor("import: a JSON line never reads as a record with a non-finite Number", 1),
+        }
+    }
+}
+
 fn gen_line_text(r: &mut Rng) -> String {
     let t = match r.below(4) {
         0 => gen::sentence(r),
@@ -1159,8 +1317,9 @@ fn replay_input(rep: &mut Report, lc: &mut LogChecker, cx: &mut Ctx, v: &Value, 
                 from_text.push(ft);
             }
             let how: Vec<u8> = v["how"].as_array().map(|a| a.iter().map(|c| c.as_u64().unwrap_or(0) as u8).collect()).unwrap_or_default();
-            lc.check_log(rep, &sessions, &from_text, &how, "replay", dir);
+            lc.check_log(rep, &sessions, &from_text, Some(v["sessions"].clone()), &how, "replay", dir);
         }
+        "numtext" => check_number_text(rep, lc, cx, v["text"].as_str().unwrap_or(""), "replay", dir),
         "ls" => {
             let texts: Vec<Vec<String>> = serde_json::from_value(v["texts"].clone()).unwrap_or_default();
             let picks: Vec<usize> = serde_json::from_value(v["picks"].clone()).unwrap_or_default();
@@ -1176,7 +1335,7 @@ fn replay_input(rep: &mut Report, lc: &mut LogChecker, cx: &mut Ctx, v: &Value, 
 
 fn run(a: &Args, corpus: &[Value]) {
     let mut rep = Report::new(&a.out);
-    rep.rule = "strings: hand list of nasty fragments (all C0 controls, quotes, backslashes, DEL, C1, U+2028/2029, BOM, noncharacters, astral) mixed with words, random scalars of every UTF-8 length; JSON literals: well-formed + damaged (bad escapes, lone/unpaired surrogates, raw controls, invalid UTF-8); byte strings for BufRead::lines heavy in LF/CR/CRLF and UTF-8 boundary bytes; logs: 1-6 append sessions of 0-8 records (lint records with 0-9 context tokens of every TokenKind, dictionary metadata, numbers incl. huge/denormal/decimal-derived, config updates with arbitrary keys), written through a real file opened like harper-ls's save_stats (also unbuffered append and harper-wasm style import+generate), plus records of all lints of generated documents; a separate stream with non-finite Numbers. thorough: every Unicode scalar value as a one-character string. non-trivial = distinct string needing an escape, or distinct multi-session log of >= 2 records".into();
+    rep.rule = "strings: hand list of nasty fragments (all C0 controls, quotes, backslashes, DEL, C1, U+2028/2029, BOM, noncharacters, astral) mixed with words, random scalars of every UTF-8 length; JSON literals: well-formed + damaged (bad escapes, lone/unpaired surrogates, raw controls, invalid UTF-8); byte strings for BufRead::lines heavy in LF/CR/CRLF and UTF-8 boundary bytes; logs: 1-6 append sessions of 0-8 records (lint records with 0-9 context tokens of every TokenKind, dictionary metadata, numbers incl. huge/denormal/decimal-derived, config updates with arbitrary keys), written through a real file opened like harper-ls's save_stats (also unbuffered append and harper-wasm style import+generate), plus records of all lints of generated documents; texts with number literals at the edges of f64 (1e999, 1e309, 309-digit integers, hex, random mantissa/exponent, mostly with an upper-case ordinal suffix so that a lint records the Number) through the real lexer and linters; finite f64 bit patterns through serde_json's printer/parser; a separate correspondence-only stream of hand-assembled records with non-finite Numbers (not constructible from text: outside the property, not judged). thorough: every Unicode scalar value as a one-character string. non-trivial = distinct string needing an escape, or distinct multi-session log of >= 2 records".into();
     let mut lc = LogChecker::new();
     let mut cx = Ctx::new();
     let dir = a.out.clone();
@@ -1254,20 +1413,21 @@ fn run(a: &Args, corpus: &[Value]) {
     for _ in 0..a.scale(1200, 6000) {
         let ss = gen_sessions(&mut r, &dict, false);
         let how = gen_how(&mut r, ss.len());
-        lc.check_log(&mut rep, &ss, &flags(&ss, false), &how, "random", &dir);
+        lc.check_log(&mut rep, &ss, &flags(&ss, false), None, &how, "random", &dir);
     }
     // records the JS API would log for the lints of generated documents
     for _ in 0..a.scale(120, 800) {
         let ns = r.range(1, 3);
         let mut ss = vec![];
+        let mut sj = vec![];
         for _ in 0..ns {
             let text = gen::any_text(&mut r);
-            let mut recs = cx.doc_records(&text, 1_700_000_000, r.next() as u128);
-            recs.truncate(12);
-            ss.push(recs);
+            let d = json!({"t": "doc", "text": text, "when": 1_700_000_000, "uuid": uuid_string(r.next() as u128), "take": 12});
+            ss.push(cx.records_from_json(&d));
+            sj.push(json!([d]));
         }
         let how = gen_how(&mut r, ss.len());
-        lc.check_log(&mut rep, &ss, &flags(&ss, true), &how, "documents", &dir);
+        lc.check_log(&mut rep, &ss, &flags(&ss, true), Some(json!(sj)), &how, "documents", &dir);
     }
     // synthetic records with non-finite Numbers: NOT constructible from text (lex_number / lex_hex_number,
     // JSON import), hence outside the property — kept as a correspondence-only stream (R: the model predicts
@@ -1275,7 +1435,34 @@ fn run(a: &Args, corpus: &[Value]) {
     for _ in 0..a.scale(150, 800) {
         let ss = gen_sessions(&mut r, &dict, true);
         let how: Vec<u8> = gen_how(&mut r, ss.len()).into_iter().map(|m| m.min(1)).collect();
-        lc.check_log(&mut rep, &ss, &flags(&ss, false), &how, "nonfinite_stream", &dir);
+        lc.check_log(&mut rep, &ss, &flags(&ss, false), None, &how, "nonfinite_stream", &dir);
+    }
+    // ---- Numbers: texts with number literals at the edges of f64 through the real lexer + linters; the float
+    // contract on many values; no JSON text denotes a non-finite Number
+    check_json_nonfinite(&mut rep);
+    for _ in 0..a.scale(400, 6000) {
+        let t = gen_number_text(&mut r);
+        check_number_text(&mut rep, &mut lc, &mut cx, &t, "number_texts", &dir);
+    }
+    let mut shown = 0;
+    for x in FLOATS {
+        check_float(&mut rep, &mut lc, *x, &mut shown, &dir);
+    }
+    for i in 0..a.scale(200_000, 8_000_000) {
+        let x = match i % 4 {
+            0 | 1 => f64::from_bits(r.next()),
+            2 => {
+                // decimal-derived: what lex_number makes of a literal
+                let s = format!("{}.{}e{}", r.below(1000), r.below(100000000), r.below(640) as i64 - 320);
+                s.parse::<f64>().unwrap_or(1.0)
+            }
+            _ => {
+                // around powers of two and ten, subnormals
+                let e = r.below(2046) + 1;
+                f64::from_bits(((e as u64) << 52).wrapping_add((r.below(5) as u64).wrapping_sub(2)))
+            }
+        };
+        check_float(&mut rep, &mut lc, x, &mut shown, &dir);
     }
     // ---- the real front ends
     for _ in 0..a.scale(25, 200) {
